@@ -453,14 +453,14 @@ Shares(v) == {<<0, 0>>} \cup {<<j, k>> \in (1..Len(v)) \X (1..Len(v)) : j < k /\
 LawModes == {<<"once", FALSE>>, <<"once", TRUE>>, <<"tail", TRUE>>, <<"twice", TRUE>>, <<"inter", FALSE>>, <<"inter", TRUE>>}
 PickLazy == /\ phase = "start"
             /\ \E m \in 1..3 : \E v \in [1..m -> LazyOpt] : \E sh \in Shares(v), lm \in LawModes, xv \in BOOLEAN :
-                 /\ LazyDefined(WithSid(v, sh))
+                 /\ LazyDefined(WithSid(v, sh)) /\ (xv => m <= 2)       \* a raising kernel: arity does not matter
                  /\ args' = <<WithSid(v, sh), lm[1], lm[2], xv, <<0>>>> /\ phase' = "lazy" /\ UNCHANGED <<ca, cb, ka, kb>>
 \* ... and with operands that read the input value, called with input values that change from call to call
 PickLazyInput ==
     /\ phase = "start"
     /\ \E m \in 1..3 : \E v \in [1..m -> LazyOptR \cup LazyOptP] : \E lm \in LawModes, xv \in BOOLEAN :
          /\ \E k \in 1..m : v[k].rd
-         /\ EndsSomewhere(v) /\ LazyDefined(WithSid(v, <<0, 0>>))
+         /\ EndsSomewhere(v) /\ LazyDefined(WithSid(v, <<0, 0>>)) /\ (xv => m <= 2)
          /\ args' = <<WithSid(v, <<0, 0>>), lm[1], lm[2], xv, InvSeq>> /\ phase' = "lazy" /\ UNCHANGED <<ca, cb, ka, kb>>
 \* call shapes: parameter lists of the base functions, a pool of calls, the way the composite is built
 SigPool == {<<"p0">>, <<"p0", "a">>, <<"p0", "b">>, <<"p0", "a", "b">>}
@@ -550,7 +550,7 @@ ShortSeq(ops, tab) ==
 \* the matcher accepts the prescribed observation and rejects it when an outcome is dropped
 LazyAccepts == phase = "lazy" =>
     /\ LazyWhy(LOps, LazyTab(LOps, args[4]), args[2], args[3], LExp, LInv) = "ok"
-    /\ LazyWhy(LOps, LazyTab(LOps, args[4]), args[2], args[3], SubSeq(LExp, 2, Len(LExp)), LInv) # "ok"
+    /\ (~args[4] => LazyWhy(LOps, LazyTab(LOps, args[4]), args[2], args[3], SubSeq(LExp, 2, Len(LExp)), LInv) # "ok")
 \* every traversal reports its end exactly once, last
 LazyEnds == phase = "lazy" =>
     /\ LExp[Len(LExp)].v.x = 2
